@@ -373,41 +373,95 @@ Definition upd_spec (f : name -> Z -> Z -> res) (k : pykey) (st : pystream) (r :
   | _, _, _ => (st, Exc ETypeError)
   end.
 
+(* ---- tactics that do not depend on the SHAPE of the generated text: case analysis on every condition the two
+   sides test (whatever their nesting and order), boolean facts turned into arithmetic ones, lia ---- *)
+Ltac b2p := repeat match goal with
+  | H : negb _ = true |- _ => apply negb_true_iff in H
+  | H : negb _ = false |- _ => apply negb_false_iff in H
+  | H : (_ && _) = true |- _ => apply andb_true_iff in H; destruct H
+  | H : (_ || _) = false |- _ => apply orb_false_iff in H; destruct H
+  | H : (_ <? _) = true |- _ => apply Z.ltb_lt in H
+  | H : (_ <? _) = false |- _ => apply Z.ltb_ge in H
+  | H : (_ <=? _) = true |- _ => apply Z.leb_le in H
+  | H : (_ <=? _) = false |- _ => apply Z.leb_gt in H
+  | H : (_ =? _) = true |- _ => apply Z.eqb_eq in H
+  | H : (_ =? _) = false |- _ => apply Z.eqb_neq in H
+  end.
+Ltac py_cbn :=
+  cbn [py_key_is_str py_stream_is_stream py_repl_is_int py_repl_int py_key_name py_stream_orig py_stream_cur
+       py_stream_set_seed negb andb orb fst snd]; cbv zeta.
+Ltac split_step :=
+  match goal with
+  | |- context [if ?c then _ else _] =>
+      lazymatch c with
+      | context [if _ then _ else _] => fail
+      | context [match _ with _ => _ end] => fail
+      | _ => destruct c eqn:?
+      end
+  | |- context [match ?x with _ => _ end] =>
+      lazymatch x with
+      | context [if _ then _ else _] => fail
+      | context [match _ with _ => _ end] => fail
+      | _ => destruct x eqn:?
+      end
+  end.
+Ltac split_all := py_cbn; repeat (split_step; py_cbn).
+
 Lemma fold_left_ext {A B} (f g : A -> B -> A) : (forall a b, f a b = g a b) ->
   forall l a, fold_left f l a = fold_left g l a.
 Proof. intros H l. induction l as [|b t IH]; intros a; [reflexivity|]. cbn. rewrite H. apply IH. Qed.
 
-(* the loop over the characters of the name is the model's 32-bit polynomial hash *)
-Lemma name_hash_loop n :
-  fold_left (fun (a c : Z) => Z.land (31 * a + c) 4294967295) (py_str_chars n) 0 = str_hash n.
+Lemma hash_step_range a c : 0 <= hash_step a c < two32.
+Proof. unfold hash_step. apply Z.mod_pos_bound. reflexivity. Qed.
+
+(* a loop over the characters of the name whose body does what hash_step does on every accumulator a 32-bit hash can
+   take is the model's 32-bit polynomial hash -- whatever the body looks like *)
+Lemma name_hash_fold (f : Z -> Z -> Z) n :
+  (forall a c, 0 <= a < two32 -> f a c = hash_step a c) ->
+  fold_left f (py_str_chars n) 0 = str_hash n.
 Proof.
-  unfold str_hash, py_str_chars. apply fold_left_ext. intros a c. unfold hash_step.
-  change 4294967295 with (Z.ones 32). rewrite Z.land_ones by lia. reflexivity.
+  intros H. unfold str_hash, py_str_chars.
+  assert (G : forall l a, 0 <= a < two32 -> fold_left f l a = fold_left hash_step l a).
+  { induction l as [|c t IH]; intros a Ha; [reflexivity|]. cbn [fold_left]. rewrite (H a c Ha).
+    apply IH. apply hash_step_range. }
+  apply G. unfold two32. lia.
 Qed.
+
+Lemma land_mask32 x : Z.land x 4294967295 = x mod two32.
+Proof. change 4294967295 with (Z.ones 32). rewrite Z.land_ones by lia. reflexivity. Qed.
+
+Ltac hash_body :=
+  let a := fresh "a" in let c := fresh "c" in let Ha := fresh "Ha" in
+  intros a c Ha; unfold hash_step; cbv zeta;
+  repeat (split_step; cbv zeta); b2p;
+  rewrite ?land_mask32; unfold two32 in *;
+  first [reflexivity | lia | (f_equal; lia)].
 
 Theorem gen_SimpleStreamUpdater_update_seed_eq : forall k st r,
   gen_SimpleStreamUpdater_update_seed k st r = upd_spec (simple_update str_hash) k st r.
 Proof.
-  intros [n|] [o c|] [z|]; try reflexivity.
-  unfold gen_SimpleStreamUpdater_update_seed, upd_spec, simple_update.
-  cbn [py_key_is_str py_stream_is_stream py_repl_is_int py_repl_int py_key_name py_stream_orig negb].
-  destruct (z <? 0); [reflexivity|].
-  cbv zeta. rewrite name_hash_loop. reflexivity.
+  intros [n|] [o c|] [z|]; unfold gen_SimpleStreamUpdater_update_seed, upd_spec, simple_update; py_cbn;
+    try reflexivity.
+  repeat match goal with
+         | |- context [fold_left ?f (py_str_chars ?m) 0] => rewrite (name_hash_fold f m) by hash_body
+         end.
+  split_all; b2p; first [reflexivity | lia].
 Qed.
 
 Theorem gen_StreamSeedUpdater_update_seed_eq : forall s k st r,
   gen_StreamSeedUpdater_update_seed s k st r = upd_spec (table_update (ssu_seeds s) (ssu_fallback s)) k st r.
 Proof.
-  intros s [n|] [o c|] [z|]; try reflexivity.
-  unfold gen_StreamSeedUpdater_update_seed, upd_spec, table_update.
-  cbn [py_key_is_str py_stream_is_stream py_repl_is_int py_repl_int py_key_name py_stream_orig negb].
-  destruct (z <? 0) eqn:Ez; [reflexivity|].
-  destruct (lookup (ssu_seeds s) n) as [l|].
-  - unfold seed_at. destruct (Z.of_nat (length l) <=? z) eqn:El; [reflexivity|].
-    apply Z.ltb_ge in Ez. apply Z.leb_gt in El.
-    rewrite (nth_error_nth' l 0) by lia. reflexivity.
-  - unfold py_call_updater. cbn [py_stream_orig py_stream_set_seed].
-    destruct (ssu_fallback s n o z); reflexivity.
+  intros s [n|] [o c|] [z|]; unfold gen_StreamSeedUpdater_update_seed, upd_spec, table_update, seed_at, py_call_updater;
+    py_cbn; try reflexivity;
+    try solve [split_all; b2p; first [reflexivity | lia]].
+  split_all; b2p;
+    first [ reflexivity | lia
+          | match goal with
+            | H : nth_error ?l ?i = _ |- _ => rewrite (nth_error_nth' l 0) in H by lia; inversion H; subst; reflexivity
+            end
+          | match goal with
+            | H : nth_error ?l ?i = None |- _ => apply nth_error_None in H; lia
+            end ].
 Qed.
 
 (* an updater that does what f says, seen entry by entry *)
